@@ -150,18 +150,22 @@ static void run_flood(uint64_t idx, pv_rng* rng) {
 
 /* strings whose length does not fit a 32-bit (or 31-bit) integer: "any length" includes them.  ASCII only, so that the
  * library's own bounded copy is exercised and the normaliser is not asked to convert gigabytes. */
-static uint64_t n_huge(void) { return pv.scale_pct >= 100 ? (pv.tier ? 5 : 3) : 0; }
+static uint64_t n_huge(void) { return pv.scale_pct >= 100 ? (pv.tier ? 8 : 4) : 0; }
 static void run_huge(uint64_t idx, pv_rng* rng) {
-    static const uint64_t LEN[5] = { (1ull << 31) + 100, (1ull << 31) - 1, 1ull << 31, (1ull << 32) + 5, (1ull << 32) - 1 };
-    uint64_t n = LEN[idx % 5];
-    pv_case_watchdog(300);            /* touching 2-4 GiB takes seconds, not milliseconds */
-    char* big = mmap(NULL, n + 1, PROT_READ | PROT_WRITE, MAP_PRIVATE | MAP_ANONYMOUS | MAP_NORESERVE, -1, 0);
-    if (big == MAP_FAILED) { PV_COUNT("huge.skipped(no address space)", 1); return; }
-    memset(big, 'a', n); big[n] = 0;
+    static const uint64_t LEN[8] = { (1ull << 31) + 100, (1ull << 31) - 1, 1ull << 31, 0 /* 2^32 + phrase */, (1ull << 32) + 5, (1ull << 32) - 1, 1 /* 2^32 + phrase + 1 */, 2 /* 2^33 + phrase */ };
+    uint64_t n = LEN[idx % 8];
+    pv_case_watchdog(600);            /* touching 2-8 GiB takes seconds, not milliseconds */
     /* a valid English phrase in front, so that the first 16 tokens are real words and the rest is one endless token */
     pv_mseed m; pv_gen_mseed(rng, 3, true, &m); unsigned coin = pv_gen_coin(rng); pv_mlang* L = pv_lang_by_name("English");
-    char ph[2048]; size_t pl = pv_m_encode(&m, L, coin, ph, sizeof ph); memcpy(big, ph, pl); big[pl] = ' ';
-    mprotect(big, n + 1, PROT_READ);
+    char ph[2048]; size_t pl = pv_m_encode(&m, L, coin, ph, sizeof ph);
+    /* lengths that are "a valid phrase" modulo 2^32 (2^33): a length kept in 32 bits turns the endless token into nothing */
+    bool wrap = n < 3; if (wrap) n = (n == 2 ? (1ull << 33) : (1ull << 32)) + pl + (n == 1 ? 1 : 0);
+    uint64_t maplen = n + 1; char* big;
+    if (wrap) big = pv_map_repeated(n, &maplen);
+    else { big = mmap(NULL, n + 1, PROT_READ | PROT_WRITE, MAP_PRIVATE | MAP_ANONYMOUS | MAP_NORESERVE, -1, 0); if (big == MAP_FAILED) big = NULL; else { memset(big, 'a', n); big[n] = 0; } }
+    if (!big) { PV_COUNT("huge.skipped(no address space)", 1); return; }
+    memcpy(big, ph, pl); big[pl] = ' ';
+    if (!wrap) mprotect(big, n + 1, PROT_READ);
     pv_cur.note = "huge-string";
     polyseed_data* s = NULL; const polyseed_lang* lo = NULL;
     pv_cur.in_ptr = NULL;
@@ -177,12 +181,25 @@ static void run_huge(uint64_t idx, pv_rng* rng) {
         pv_world_begin("polyseed_crypt"); polyseed_crypt(sd, big); pv_world_end();
         PV_COUNT("evaluations", 1);
         if (pv_w->nkdf != 1 || pv_w->kdf[0].pwlen > POLYSEED_STR_SIZE - 1) pv_violation("C14/huge-string/crypt", "a %llu-byte password: %d KDF calls, password length %zu", (unsigned long long)n, pv_w->nkdf, pv_w->nkdf ? pv_w->kdf[0].pwlen : 0);
+        /* whatever the library does with a password that does not fit its buffer, it must not depend on the length modulo 2^32:
+         * the same text cut to 4000 bytes (far beyond the buffer as well) has to give the same KDF input */
+        else {
+            uint8_t pw1[1024]; size_t l1 = pv_w->kdf[0].pwlen; memcpy(pw1, pv_w->kdf[0].pw, l1 < sizeof pw1 ? l1 : sizeof pw1);
+            char* shorter = malloc(4001); memcpy(shorter, big, 4000); shorter[4000] = 0;
+            polyseed_data* s2 = pv_seed_from_model(&m);
+            if (s2) { pv_api_crypt(s2, shorter);
+                if (pv_w->nkdf != 1 || pv_w->kdf[0].pwlen != l1 || memcmp(pv_w->kdf[0].pw, pw1, l1 < sizeof pw1 ? l1 : sizeof pw1))
+                    pv_violation("C14/huge-string/crypt-depends-on-length-modulo-2^32", "a %llu-byte password gives a %zu-byte KDF password, its first 4000 bytes alone a %zu-byte one", (unsigned long long)n, l1, pv_w->nkdf ? pv_w->kdf[0].pwlen : 0);
+                else PV_COUNT("huge.kdf_password_equals_that_of_the_first_4000_bytes", 1);
+                pv_api_free(s2); }
+            free(shorter);
+        }
         pv_api_free(sd);
     }
-    PV_COUNT("huge.strings", 1);
+    PV_COUNT("huge.strings", 1); if (wrap) PV_COUNT("huge.strings_whose_length_is_a_valid_phrase_modulo_2^32", 1);
     PV_DISTINCT("nontrivial", pv_mix(0x4006e, n));
     pv_sample("huge", "%llu-byte NUL-terminated ASCII string into decode, decode_explicit and crypt", (unsigned long long)n);
-    munmap(big, n + 1);
+    munmap(big, maplen);
 }
 
 /* the same calls on a thread whose stack is as small as the default of a mainstream C library (musl: 128 KiB; here
